@@ -33,8 +33,9 @@ Definition result_errno_reported_except_einval : Prop :=
 Definition result_einval_is_masked : Prop :=
   forall k fd, decode_result FbDefault k fd (- EINVAL) = ErrUnsupported.
 
-(** The synchronous fallbacks make the documented call on the same descriptor — full statement
-    (false for direct descriptors: H21) and what holds. *)
+(** The synchronous fallbacks make the documented call on the same descriptor, for both kinds of
+    descriptor (full statement; it was false for direct descriptors before the repair of H21),
+    and a direct descriptor never reaches a system call of the process's descriptor table. *)
 Definition fallback_same_descriptor : Prop :=
   forall fb k fd res c o, op_of_fb fb = Some o -> (k = Direct -> kind_ok o Direct) ->
     decode_result fb k fd res = SyncCall c -> c = intended_call o k fd.
@@ -43,24 +44,38 @@ Definition fallback_same_descriptor_regular : Prop :=
   forall fb fd res c o, op_of_fb fb = Some o ->
     decode_result fb Regular fd res = SyncCall c -> c = intended_call o Regular fd.
 
-(** H21: on a direct descriptor the fallback calls libc with the direct *index* as if it were a
-    descriptor number of the process. *)
+Definition fallback_direct_never_calls : Prop :=
+  forall fb fd res c, (match fb with FbSockName _ _ | FbGetSockOpt _ _ _ | FbSetSockOpt _ _ _ => True | _ => False end) ->
+    decode_result fb Direct fd res <> SyncCall c.
+
+(** What a direct descriptor gets instead: the kernel's error, unchanged. *)
+Definition fallback_direct_keeps_error : Prop :=
+  forall fb fd res, (match fb with FbSockName _ _ | FbGetSockOpt _ _ _ | FbSetSockOpt _ _ _ => True | _ => False end) ->
+    res < 0 -> - res <> EINTR -> - res <> ECANCELED ->
+    decode_result fb Direct fd res = ErrOs (- res).
+
+(** The repair changes nothing for regular descriptors. *)
+Definition fallback_repair_regular_unchanged : Prop :=
+  forall fb fd res, decode_result fb Regular fd res = decode_result_h21 fb Regular fd res.
+
+(** H21 (the code before the repair): on a direct descriptor the fallback called libc with the
+    direct *index* as if it were a descriptor number of the process. *)
 Definition fallback_h21_refuted_stmt : Prop :=
   exists fb fd res c o, op_of_fb fb = Some o /\ kind_ok o Direct /\
-    decode_result fb Direct fd res = SyncCall c /\ c <> intended_call o Direct fd /\
+    decode_result_h21 fb Direct fd res = SyncCall c /\ c <> intended_call o Direct fd /\
     call_file c = Some (FdNum (Z.of_N fd)) /\ call_file (intended_call o Direct fd) = Some (FdFixed (Z.of_N fd)).
 
 Definition fallback_h21_every_direct_socket_fallback : Prop :=
   forall fb fd res c, (match fb with FbSockName _ _ | FbGetSockOpt _ _ _ | FbSetSockOpt _ _ _ => True | _ => False end) ->
-    decode_result fb Direct fd res = SyncCall c -> call_file c = Some (FdNum (Z.of_N fd)).
+    decode_result_h21 fb Direct fd res = SyncCall c -> call_file c = Some (FdNum (Z.of_N fd)).
 
 Lemma result_done_iff_success_holds : result_done_iff_success.
 Proof.
-  intros fb k fd res v. unfold decode_result. split.
+  intros fb k fd res v. unfold decode_result, decode_result_gen. split.
   - destruct (Z.leb_spec 0 res) as [H|H].
     + intros E. inversion E. split; [assumption | reflexivity].
     + destruct ((- res =? EINTR) || (- res =? ECANCELED)); [discriminate|].
-      destruct fb; cbn [fallback_of];
+      destruct fb; cbn [fallback_gen];
         repeat match goal with |- context [if ?b then _ else _] => destruct b end;
         try discriminate; destruct k; discriminate.
   - intros [H ->]. destruct (Z.leb_spec 0 res); [reflexivity | lia].
@@ -68,10 +83,10 @@ Qed.
 
 Lemma result_errno_is_the_calls_holds : result_errno_is_the_calls.
 Proof.
-  intros fb k fd res e. unfold decode_result.
+  intros fb k fd res e. unfold decode_result, decode_result_gen.
   destruct (Z.leb_spec 0 res) as [H|H]; [discriminate|].
   destruct ((- res =? EINTR) || (- res =? ECANCELED)); [discriminate|].
-  destruct fb; cbn [fallback_of];
+  destruct fb; cbn [fallback_gen];
     repeat match goal with |- context [if ?b then _ else _] => destruct b end;
     try discriminate; try (destruct k; try discriminate);
     intros E; inversion E; split; (lia || reflexivity).
@@ -79,7 +94,7 @@ Qed.
 
 Lemma result_errno_reported_except_einval_holds : result_errno_reported_except_einval.
 Proof.
-  intros k fd res Hneg H1 H2 H3. unfold decode_result, fallback_of.
+  intros k fd res Hneg H1 H2 H3. unfold decode_result, decode_result_gen, fallback_gen.
   destruct (Z.leb_spec 0 res); [lia|].
   destruct (Z.eqb_spec (- res) EINTR); [contradiction|].
   destruct (Z.eqb_spec (- res) ECANCELED); [contradiction|].
@@ -91,16 +106,56 @@ Proof. intros k fd. reflexivity. Qed.
 
 Lemma fallback_same_descriptor_regular_holds : fallback_same_descriptor_regular.
 Proof.
-  intros fb fd res c o Ho. unfold decode_result.
+  intros fb fd res c o Ho. unfold decode_result, decode_result_gen.
   destruct (0 <=? res); [discriminate|].
   destruct ((- res =? EINTR) || (- res =? ECANCELED)); [discriminate|].
-  destruct fb; cbn in Ho; inversion Ho; subst o; cbn [fallback_of];
+  destruct fb; cbn in Ho; inversion Ho; subst o; cbn [fallback_gen is_regular];
     match goal with |- context [if ?b then _ else _] => destruct b end; try discriminate;
     intros E; inversion E; reflexivity.
 Qed.
 
+Lemma fallback_direct_never_calls_holds : fallback_direct_never_calls.
+Proof.
+  intros fb fd res c Hfb. unfold decode_result, decode_result_gen.
+  destruct (0 <=? res); [discriminate|].
+  destruct ((- res =? EINTR) || (- res =? ECANCELED)); [discriminate|].
+  destruct fb; try contradiction; cbn [fallback_gen is_regular];
+    rewrite Bool.andb_false_r; discriminate.
+Qed.
+
+Lemma fallback_direct_keeps_error_holds : fallback_direct_keeps_error.
+Proof.
+  intros fb fd res Hfb Hneg H1 H2. unfold decode_result, decode_result_gen.
+  destruct (Z.leb_spec 0 res); [lia|].
+  destruct (Z.eqb_spec (- res) EINTR); [contradiction|].
+  destruct (Z.eqb_spec (- res) ECANCELED); [contradiction|]. cbn [orb].
+  destruct fb; try contradiction; cbn [fallback_gen is_regular];
+    rewrite Bool.andb_false_r; reflexivity.
+Qed.
+
+Lemma fallback_same_descriptor_holds : fallback_same_descriptor.
+Proof.
+  intros fb k fd res c o Ho Hk Hd. destruct k.
+  - apply (fallback_same_descriptor_regular_holds fb fd res c o Ho Hd).
+  - exfalso. destruct fb; cbn in Ho; try discriminate.
+    + (* pipe: never on a direct descriptor; the call does not name one *)
+      inversion Ho; subst o. specialize (Hk eq_refl). cbn in Hk. discriminate Hk.
+    + apply (fallback_direct_never_calls_holds (FbSockName peer cap) fd res c I Hd).
+    + apply (fallback_direct_never_calls_holds (FbGetSockOpt level name optlen) fd res c I Hd).
+    + apply (fallback_direct_never_calls_holds (FbSetSockOpt level name value) fd res c I Hd).
+Qed.
+
+Lemma fallback_repair_regular_unchanged_holds : fallback_repair_regular_unchanged.
+Proof.
+  intros fb fd res. unfold decode_result, decode_result_h21, decode_result_gen.
+  destruct (0 <=? res); [reflexivity|].
+  destruct ((- res =? EINTR) || (- res =? ECANCELED)); [reflexivity|].
+  destruct fb; cbn [fallback_gen is_regular]; reflexivity.
+Qed.
+
 (** [socket_option::<TcpNoDelay>()] (level 6, option 1) on direct descriptor 5, completed with
-    -EOPNOTSUPP: getsockopt(5, ...) on whatever the process has open as descriptor 5. *)
+    -EOPNOTSUPP: before the repair, getsockopt(5, ...) on whatever the process has open as
+    descriptor 5. *)
 Lemma fallback_h21_refuted : fallback_h21_refuted_stmt.
 Proof.
   exists (FbGetSockOpt 6 1 4), 5%N, (- EOPNOTSUPP),
@@ -109,18 +164,13 @@ Proof.
   vm_compute. discriminate.
 Qed.
 
-Lemma fallback_same_descriptor_fails : ~ fallback_same_descriptor.
-Proof.
-  intros H. destruct fallback_h21_refuted as (fb & fd & res & c & o & Ho & Hk & Hd & Hne & _).
-  apply Hne. apply (H fb Direct fd res c o Ho (fun _ => Hk) Hd).
-Qed.
-
 Lemma fallback_h21_every_direct_socket_fallback_holds : fallback_h21_every_direct_socket_fallback.
 Proof.
-  intros fb fd res c Hfb. unfold decode_result.
+  intros fb fd res c Hfb. unfold decode_result_h21, decode_result_gen.
   destruct (0 <=? res); [discriminate|].
   destruct ((- res =? EINTR) || (- res =? ECANCELED)); [discriminate|].
-  destruct fb; try contradiction; cbn [fallback_of];
+  destruct fb; try contradiction; cbn [fallback_gen];
+    rewrite Bool.andb_true_r;
     match goal with |- context [if ?b then _ else _] => destruct b end; try discriminate;
     intros E; inversion E; reflexivity.
 Qed.
